@@ -624,6 +624,42 @@ var EvoEdits = []EvoEdit{
 		}
 		return s.Path, true
 	}},
+	{"change-type-argument-via-alias", "error", func(t *rapid.T, p *Package, env *Env) (string, bool) {
+		// an inline instantiation G<X> is replaced by a new closed alias `ViaAlias: G<Y>` with another argument
+		// (or, the other way round, stays inline while ... the net effect is the documented breaking change
+		// "changing the type arguments to a generic type", spelled through an alias on one side)
+		r := env.Reachable(p.Protocols()...)
+		var c []Slot
+		for _, s := range Slots(p) {
+			x := s.Get()
+			inReach := s.Def.Kind == DProtocol || r[p.Namespace+"."+s.Def.Name]
+			if !inReach || x.Kind != KRef || len(x.Args) == 0 || len(s.Def.TypeParams) > 0 {
+				continue
+			}
+			if s.Ctx != "" && s.Ctx != "stream" && s.Ctx != "vector" && s.Ctx != "optional" {
+				continue
+			}
+			if x.Args[0] != nil && x.Args[0].Kind == KPrim {
+				c = append(c, s)
+			}
+		}
+		if len(c) == 0 {
+			return "", false
+		}
+		s := c[pickInt(t, "viaAliasAt", len(c))]
+		inst := s.Get().Clone()
+		old := inst.Args[0].Prim
+		nw := "complexfloat64"
+		if old == nw {
+			nw = "date"
+		}
+		inst.Args[0] = Prim(nw)
+		if !env.TypeOK(inst) {
+			return "", false
+		}
+		s.Set(addAlias(p, "ViaAlias", inst))
+		return s.Path, true
+	}},
 }
 
 func maxInt(a, b int) int {
